@@ -76,13 +76,18 @@ def scenario(cls, rng, n_ops, uid_len=None):
             ops_terms.append('(SetField %d %s)' % (e, term))
             human.append('set %s=%r' % (kw, val))
         elif r < 0.75:
-            kind = rng.choice(['bytes', 'none', 'empty', 'file'])
+            kind = rng.choice(['bytes', 'none', 'empty', 'file', 'emptyfile', 'file-at-end'])
             if kind == 'bytes':
                 msg.data_set = bytes(rng.randint(0, 255) for _ in range(rng.choice([1, 7, 100])))
             elif kind == 'none':
                 msg.data_set = None
             elif kind == 'empty':
                 msg.data_set = b''
+            elif kind == 'emptyfile':
+                msg.data_set = io.BytesIO(b'')            # nothing to read: must be sent as "no data set"
+            elif kind == 'file-at-end':
+                msg.data_set = io.BytesIO(b'header only')
+                msg.data_set.seek(0, 2)
             else:
                 msg.data_set = io.BytesIO(b'x' * rng.choice([1, 50]))
             ops_terms.append('(SetData %s)' % cbool(kind in ('bytes', 'file')))
